@@ -142,6 +142,15 @@ def featureful(seed, k, rng):
                 m["name"] = new
                 rename_refs(p, old, new)
         tags.add("names-ending-in-digits")
+    if r() < 0.12:
+        # two messages whose name + array field number concatenate to the same digits (Dg1 / 2 and Dg / 12)
+        ti = [i for i, x in enumerate(main) if x["d"] == "message" and x["name"] == p["top"]][0]
+        arr = {"k": "array", "elem": {"k": "uint", "n": 8}, "cap": gen.lit(2), "ext": False}
+        main.insert(ti, {"d": "message", "name": "Dg1", "ext": False,
+                         "body": [{"d": "field", "name": "a", "num": 2, "t": dict(arr)}]})
+        main.insert(ti, {"d": "message", "name": "Dg", "ext": False,
+                         "body": [{"d": "field", "name": "a", "num": 12, "t": dict(arr)}]})
+        tags.add("names-ending-in-digits")
     if r() < 0.25:
         fs = [d for d in all_decls(main) if d["d"] == "field"]
         if fs:
@@ -198,6 +207,13 @@ def featureful(seed, k, rng):
                 if d["d"] == "import" and d["file"] == lib:
                     d["file"] = newf
             tags.add("file-name-differs-from-proto-name")
+    if r() < 0.25:
+        # a third file on top that imports the main file and the file the main file imports (a diamond)
+        p = gen.wrap_diamond(p, rng)
+        tags.add("diamond-import")
+        if len(p["files"]) > 2:
+            # app imports the library file without using any of its types (the type tree is not kept here)
+            tags.add("import-used-only-for-constants-or-unused")
     return p, tags
 
 
